@@ -2,12 +2,21 @@
 //! and prints canonical observations. One sub-command per engine.
 mod ast;
 mod compile;
+mod frags;
+mod lift;
 mod sat;
+mod desc;
+mod psbt;
 mod tables;
+mod tap;
+mod validate;
+mod vgen;
 
 fn main() {
     // panics of the library are caught with catch_unwind and reported as observations
-    std::panic::set_hook(Box::new(|_| {}));
+    if std::env::var("VERIF_PANIC_VERBOSE").is_err() {
+        std::panic::set_hook(Box::new(|_| {}));
+    }
     let args: Vec<String> = std::env::args().collect();
     if args.len() < 2 {
         eprintln!("usage: verif-harness <engine> [args]");
@@ -18,6 +27,12 @@ fn main() {
         "sat" => sat::run(&args[2..]),
         "compile" => compile::run(&args[2..]),
         "compile-one" => compile::run_one(&args[2..]),
+        "frags" => frags::run(&args[2..]),
+        "tap" => tap::run(&args[2..]),
+        "desc" => desc::run(&args[2..]),
+        "psbt" => psbt::run(&args[2..]),
+        "lift" => lift::run(&args[2..]),
+        "validate" => validate::run(&args[2..]),
         other => {
             eprintln!("unknown engine {}", other);
             std::process::exit(2);
